@@ -39,6 +39,12 @@ func ZZ_C11_H1() {
 	r.SetRequestURI("http://h/" + string(pb))
 	r.URI().QueryArgs().Add(string(qk), string(qv))
 	r.Header.Set("X-H", string(hv))
+	// an explicit Host header field (virtual host different from the URL's authority) is sent as given
+	wantHost := "h"
+	if zz.Choose("explicitHost", 2) == 1 {
+		wantHost = "vhost.example"
+		r.Header.SetHost(wantHost)
+	}
 	hasBody := method != "GET" && method != "HEAD" && bodyMode != 0
 	if hasBody {
 		switch bodyMode {
@@ -95,7 +101,7 @@ func ZZ_C11_H1() {
 	zz.Assert("method", string(gotMethod) == method)
 	zz.Assert("path", bytes.Equal(gotPath, wantPath))
 	zz.Assert("query-argument", nArgs == 1 && bytes.Equal(gotQuery, qv))
-	zz.Assert("host", string(gotHost) == "h")
+	zz.Assert("host", string(gotHost) == wantHost)
 	zz.Assert("header-field", bytes.Equal(gotH, hv))
 	if hasBody {
 		zz.Assert("body", bytes.Equal(gotBody, body))
